@@ -19,6 +19,7 @@ type c10Params struct {
 	SameSeg  bool       // bad frame in the same write as the surrounding replies
 	OneWrite bool
 	Dotu     bool
+	Stall    bool // the peer stops reading after the first request: the client's writer blocks inside Write on the second
 	P        int
 }
 
@@ -27,7 +28,11 @@ func (p c10Params) name() string {
 	for _, s := range p.Calls {
 		cs = append(cs, fmt.Sprintf("%s%d", s.Kind, s.Fid))
 	}
-	return fmt.Sprintf("fail[%s] late=%v fault=%s at=%d sameseg=%v onewrite=%v dotu=%v", strings.Join(cs, ","), p.Late, p.Fault, p.At, p.SameSeg, p.OneWrite, p.Dotu)
+	st := ""
+	if p.Stall {
+		st = " writer-stalled"
+	}
+	return fmt.Sprintf("fail[%s] late=%v fault=%s at=%d sameseg=%v onewrite=%v dotu=%v%s", strings.Join(cs, ","), p.Late, p.Fault, p.At, p.SameSeg, p.OneWrite, p.Dotu, st)
 }
 
 func c10Scenario(p c10Params) Scenario {
@@ -45,6 +50,11 @@ func c10Scenario(p c10Params) Scenario {
 		peer.Batch = len(p.Calls)
 		peer.BatchOnce = true
 		peer.OneWrite = p.OneWrite
+		if p.Stall {
+			// requests are 11 (Tstat) and 23 (Tread) bytes: whichever comes second does not fit
+			ce.StallOutgoingAt(24)
+			peer.Batch = 1
+		}
 		// fault injection on the peer side
 		switch p.Fault {
 		case "garbage", "undersize", "oversize", "unknowntag":
@@ -201,6 +211,15 @@ func c10Scenarios(tier string) []Scenario {
 			}
 		}
 	}
+	// the same faults while the client's writer is blocked inside Write (peer not reading)
+	for i, f := range []string{"garbage", "undersize", "oversize", "unknowntag", "unmount", "peerclose"} {
+		for at := 0; at <= 1; at++ {
+			if at == 1 && (f == "unmount" || f == "peerclose") {
+				continue
+			}
+			out = append(out, c10Scenario(c10Params{Calls: two, Fault: f, At: at, Stall: true, Dotu: (i+at)%2 == 0, Late: (i+at)%3 == 0, P: D + 1}))
+		}
+	}
 	for _, lateC := range []bool{false, true} {
 		ud := D + 1
 		if !lateC {
@@ -223,7 +242,7 @@ func c10Scenarios(tier string) []Scenario {
 func init() {
 	register(&Property{ID: "C10", Level: "model_checking",
 		Technique: "fault enumeration crossed with stateless model checking of the real client under the controlled scheduler; hangs decided at quiescence",
-		Rule:      "0-3 (thorough 4) outstanding calls plus an optional caller entering Rpc during the failure; faults: server-to-client stream cut after every byte offset of the scripted reply stream, client writes failing at 10 offsets inside the first requests, garbage / undersize / oversize / unknown-tag frames placed before, between and after complete replies (own segment and same segment), Unmount from another goroutine, peer closing; every schedule with at most D deviations from the default scheduler (delay bounding; quick D=1-3 by fault kind, thorough D=2-4); afterwards one more call. distinct = distinct per-object operation orders",
+		Rule:      "0-3 (thorough 4) outstanding calls plus an optional caller entering Rpc during the failure; faults: server-to-client stream cut after every byte offset of the scripted reply stream, client writes failing at 10 offsets inside the first requests, garbage / undersize / oversize / unknown-tag frames placed before, between and after complete replies (own segment and same segment), Unmount from another goroutine, peer closing; the frame faults, Unmount and peer close also while the client's writer is blocked inside Write (peer stopped reading after the first request); every schedule with at most D deviations from the default scheduler (delay bounding; quick D=1-3 by fault kind, thorough D=2-4); afterwards one more call. distinct = distinct per-object operation orders",
 		Assumptions: []string{"'within bounded time' is decided as: no reachable quiescent state in which a caller is blocked", "transport: a cut delivers exactly the bytes before the offset, then EOF"},
 		Scenarios:   c10Scenarios, QuickS: 110, ThoroughS: 1500})
 }
